@@ -51,7 +51,11 @@ pub fn gen_edits(rng: &mut Rng, text: &str, n: usize) -> String {
     let mut cur = text.to_string();
     let mut s = String::new();
     for _ in 0..n {
-        let (lo, hi, ins) = if rng.chance(2, 3) {
+        let (lo, hi, ins) = if rng.chance(1, 6) {
+            // a keystroke at the very end of the document (the last token's look-ahead is the end of text)
+            let key = *rng.pick(&["'", "'", "a", "/", "=", "<", ":", "0", "x", "\\", "n", " ", "\n", "_", "1", "\u{e9}"]);
+            (cur.len(), cur.len(), key.to_string())
+        } else if rng.chance(2, 3) {
             token_edit(rng, &cur)
         } else {
             let (lo, hi) = gen_text::char_range(rng, &cur);
